@@ -330,6 +330,9 @@ func runCheck(repo, prop, tier, speclib string, seed int64, writeEvidence bool, 
 		assume["Go type checker, x/tools go/ssa v0.29.0 lowering, govc itself, z3/cvc5 soundness for unsat"] = true
 		assume["frames: every store, map update and call (with or without contract) is checked against the function's assigns clause and against the modifies clause of every enclosing cut loop; exception: an in-place append into spare capacity is checked against the function's clause only"] = true
 		assume["termination is not verified (loops are cut by invariants; recursion through contracts)"] = true
+		assume["ghost state keyed by *math/big.Int (bigval) travels with value copies of big.Int; a shallow copy shares the digit array with the original - in-place mutation of one copy afterwards is outside the model"] = true
+		assume["frame designator under(p): the memory at and up to three selector steps below p (encoding/binary.Read is assumed to write only that)"] = true
+		assume["preconditions tagged @SAFETY are obligations only of callers under `checks safety` (other callers neither prove nor rely on the clauses stated under them)"] = true
 		assume[fmt.Sprintf("%d speclib axioms", rep.Axioms)] = true
 		var as []string
 		for k := range assume {
